@@ -50,6 +50,15 @@ def run(ctx, out):
         cfg = G.default_cfg(timeout=rng.choice([0, 1, 15, 253, 254, 255]))
         cases.append((cfg, ["new", "readcard"], {"06c0": [r]}, None, None))
     ops, impl = run_histories(ctx, out, cases, "read_card")
+    # a slow but talking terminal: 3 virtual seconds before every packet, 7..30 intermediate statuses before the card data / the abort, so
+    # the final reply arrives long after read_card_timeout + 2 s although every single gap is far below it (implementation vs specification)
+    slow = []
+    for k in (7, 8, 12, 20, 30):
+        for fin in (P.status(result_code=0, tlv={"uuid": "0102030405", "subs": []}), P.status(result_code=0, tlv={"uuid": None, "subs": [sub_with]}),
+                    P.abort(0x6c), P.abort(0x64)):
+            for t in (15, 5, 255):      # the first item takes two gaps (acknowledgement, then the first status): 6 s < t + 2
+                slow.append((G.default_cfg(timeout=t), ["new", "readcard"], {"06c0": [[P.intermediate(rng.randrange(256)) for _ in range(k)] + [fin]]}, None, None))
+    run_histories(ctx, out, slow, "read_card with a slow terminal (3 s before every packet)", gap=3)
     # finding D9: an application list whose FIRST entry carries no application id is answered with the error
     # "Unknown card type" by the code, where the property text asks for bank (an id further down) / membership id
     for f in out.oracle_failures:
@@ -66,5 +75,5 @@ def run(ctx, out):
         seen[key] = res
     out.rule = ("read_card against status-information replies: UID absent / empty / 1..20 bytes (random, all-zero, zero runs of every length before the last byte, 000000-prefixed), application lists absent / with / without application ids, "
                 "0..3 (and in a sample 19, 20, 21, 40, 64) preceding intermediate statuses; all 256 abort codes; result must equal the specification (bank iff the first listed application carries an id; otherwise upper-case hex UID, last 14 digits, one leading 000000 dropped; "
-                "6C => no card; other abort => error) and be identical for identical status data. implementation = model = specification")
+                "6C => no card; other abort => error) and be identical for identical status data. implementation = model = specification; additionally a slow terminal (3 s before every packet, 7..30 intermediate statuses, time-outs 5/15/255 s): implementation = specification")
     out.samples = [ops[300][:400], {"op": ops[-1][:200], "impl": impl[-1][:300]}]
